@@ -275,6 +275,52 @@ def _ext_task(r):
     return acc
 
 
+def _longevity_task(fam):
+    """Scale: an object is hashed and compared, then 5,000 other distinct vectors are built, hashed
+    and compared with a re-spelling of themselves, then the first object must still equal (and
+    hash like) a fresh copy of itself and of its re-spelling."""
+    from .. import spaces
+    acc = sweep.new_acc()
+    cls = observe.cls_of(fam)
+    if fam == "2":
+        vs = [T.PREFIX[fam] + "/".join(x for x in (fa, fb, fc) if x) for fa, _ in spaces.v2_base_all()[::3]
+              for fb, _ in spaces.v2_temporal_effective()[::4] for fc, _ in [("", {}), ("CDP:L/TD:M", {})]]
+    elif fam == "4.0":
+        vs = [T.PREFIX[fam] + f + e for f, _ in spaces.parts(T.V4_BASE, T.V4)[::19] for e in ("", "/E:P", "/CR:L/MAV:N")]
+    else:
+        vs = [T.PREFIX[fam] + f + e for f, _ in spaces.v3_base_all() for e in ("", "/E:P/RL:T", "/CR:H/MS:C")]
+    vs = vs[:5200]
+    nd = T.ND[fam]
+    first = vs[0]
+    early = cls(first)
+    s = set([early])
+    h0 = hash(early)
+    seen = []
+    for v in vs[1:]:
+        acc["n"] += 1
+        a = cls(v)
+        b = cls(v + "/%s:%s" % (T.OPTIONAL[fam][-1], nd) if T.OPTIONAL[fam][-1] + ":" not in v else v)
+        if not (a == b) or hash(a) != hash(b) or a == early or a in s:
+            sweep.bad(acc, {"what": "%s: %r and its re-spelling are not equal / same hash (or equal %r) after %d objects" % (
+                T.CLASSNAME[fam], v, first, acc["n"]), "kind": "longevity", "input": fam, "signature": {"kind": "longevity"}})
+            return acc
+        if len(seen) < 50:
+            seen.append(a)
+    late = cls(first)
+    acc["cmp"] += 4
+    if not (early == late) or not (late == early) or hash(late) != h0 or hash(early) != h0 or late not in s:
+        sweep.bad(acc, {"what": "%s(%r): an object built first no longer equals / hashes like a fresh copy of itself "
+                        "after %d other objects were built and compared" % (T.CLASSNAME[fam], first, len(vs) - 1),
+                        "kind": "longevity", "input": fam, "signature": {"kind": "longevity"}})
+    for a in seen:
+        if not (a == cls(a.vector)) or hash(a) != hash(cls(a.vector)):
+            sweep.bad(acc, {"what": "%s(%r): no longer equal to a fresh copy of itself" % (T.CLASSNAME[fam], a.vector),
+                            "kind": "longevity", "input": fam, "signature": {"kind": "longevity"}})
+            break
+    acc["nontrivial"] += acc["n"]
+    return acc
+
+
 _EXT = None
 
 
@@ -306,6 +352,7 @@ def run(ctx, res):
                                "signature": {"kind": "order"}})
             break
     accs_e = core.task_map(_ext_task, core.split_range(len(_EXT), 64))
+    accs_e += core.task_map(_longevity_task, list(T.FAMILIES))
     bad_unary = sum(a["nbad"] for a in accs)
     if bad_unary == 0:
         accs_p = core.task_map(_pair_task, ctx.rot(core.split_range(len(_U), 256 if ctx.thorough else 128)))
@@ -352,6 +399,9 @@ def run(ctx, res):
 
 def replay(case):
     global _U, _OBJ
+    if case["kind"] == "longevity":
+        acc = _longevity_task(case["input"])
+        return bool(acc["bad"]), (acc["bad"][0]["what"] if acc["bad"] else "stable")
     if case["kind"] == "unary":
         _U = [(case["family"], case["input"], None)]
         why, _ = unary(0)
